@@ -51,13 +51,32 @@ def main():
             c["reproduced"] = False; c["replay_note"] = "replay failed: " + repr(e)
     # prefer a reproduced counterexample first
     dist.sort(key=lambda c: not c.get("reproduced"))
+    # native self-check: concrete witnesses of PASSING paths must agree with the real code as well (engine + oracle validation)
+    selfcheck = []
+    nself = int(os.environ.get("MIRSYM_SELFCHECK", "2" if tier == "quick" else "6"))
+    if rp is not None and not dist and nself > 0:
+        import nativereplay, random
+        cands = list(s.get("ok_witnesses", []))
+        random.Random(int(seed)).shuffle(cands)
+        seen_kinds = set()
+        for c in cands:
+            if len(selfcheck) >= nself: break
+            if c["what"] in seen_kinds and len(seen_kinds) < len({x["what"] for x in cands}): continue
+            seen_kinds.add(c["what"])
+            try:
+                ok, note, payload = nativereplay.replay(scratch, rp, c, params, profiles=(False,))
+            except Exception as e:
+                continue
+            if payload is None: continue
+            nat += 1
+            selfcheck.append(dict(path=c["what"], disagrees=bool(ok), note=note[:300]))
     wit = hd.get("witnesses", [])
     hit = [w for w in wit if s["outcomes"].get(w, 0) > 0]
     out = dict(paths=s["paths"], queries=s["queries"], solver_s=s["solver_s"], wall_s=s["wall_s"],
                functions=s["functions"], outcomes=s["outcomes"], samples=s["samples"],
                unmodelled=[u["info"] for u in s["unmodelled"]][:5], budget=s["budget"],
                counterexamples=dist, all_whats=sorted(set(whats))[:20], witnesses=len(wit), witnesses_hit=len(hit),
-               witnesses_missing=[w for w in wit if w not in hit], native_validations=nat, forks=s["forks"])
+               witnesses_missing=[w for w in wit if w not in hit], native_validations=nat, forks=s["forks"], selfcheck=selfcheck)
     json.dump(out, open(outp, "w"), indent=1, default=str)
 
 
